@@ -1256,7 +1256,7 @@ func (x *Exec) assign(l ast.Expr, v Term, env *Env) {
 			x.assign(l.X, nv, env)
 			// execution continues past a map store only if the map was not nil (the nil-map store itself is not
 			// a checked safety obligation: see DESIGN 9.12)
-			if mt := derefType(xt); mt != nil {
+			if mt := derefType(xt); mt != nil && !x.termMode {
 				x.W.AddFact(env.pc, x.nilCompare(token.NEQ, nv, mt, l.X, env))
 			}
 		default:
